@@ -106,7 +106,10 @@ def rerun(names):
             continue
         mp = os.path.join(d, "meta.json")
         meta = json.load(open(mp))
-        res = run_checks(os.path.join(d, "patch.diff"), list(meta["checks_run"].keys()))
+        # by default only the property the change was written against and the checks that caught it before; --all = every check ever run
+        checks = list(meta["checks_run"].keys()) if "--all" in sys.argv else [meta["breaks_property"]] + [c for c in meta.get("caught_by", []) if c != meta["breaks_property"]]
+        res = dict(meta["checks_run"])
+        res.update(run_checks(os.path.join(d, "patch.diff"), checks))
         meta["checks_run"] = res
         meta["caught_by"] = [c for c, r in res.items() if r["fired"]]
         json.dump(meta, open(mp, "w"), indent=1)
@@ -122,4 +125,4 @@ if __name__ == "__main__":
             args = args[:i] + args[i + 2:]
         add(args[0], args[1], args[2], args[3], " ".join(args[4:]), extra)
     elif sys.argv[1] == "rerun":
-        rerun(sys.argv[2:])
+        rerun([a for a in sys.argv[2:] if not a.startswith("--")])
